@@ -283,6 +283,10 @@ def enter_failure_releases(prog, rep, rule="handle-discipline"):
     import ast as _ast
     src = (prog.src / "basictdf.py").read_text()
     tree = _ast.parse(src)
+    # the success-flag spelling of the same protection (`ok = False; try: ..; ok = True finally: if not ok: cleanup`) is brought to the
+    # handler form first - a local rewrite that does not touch the wrapper this rule is about
+    from ..normalize import _success_flag_finally
+    _success_flag_finally(tree)
     tdf = next((c for c in tree.body if isinstance(c, _ast.ClassDef) and c.name == "Tdf"), None)
     if tdf is None:
         raise AnalysisError("anchor vanished: class Tdf")
